@@ -78,6 +78,10 @@ package task
 //@   on call .ToTargetEndpoint : assert arg0 == host && hostOf == task
 //@   on aftercall .ToTargetEndpoint : te = result ; teOk = true
 //@   on mapupdate bindMap : assert teOk && value == te
+//   ... under the name outbound channels use for it: the global alias verbatim, or <path of the binding role>:<channel>
+//@   ghostvar isAlias bool = false
+//@   [C13] on aftercall strings.HasPrefix : assert arg0 == inbChName && arg1 == "::" ; isAlias = result
+//@   [C13] on mapupdate bindMap : assert (isAlias ==> key == inbChName) && (!isAlias ==> key == taskPath + TARGET_SEPARATOR + inbChName)
 //@   on call (Tasks).BuildPropertyMaps : assert arg1 == bindMap
 //   C13: two different endpoints claiming the same global alias are rejected: the endpoint already registered under the
 //   alias is compared as it is (all of it, host included) with the one being registered, and a difference is an error
@@ -213,6 +217,9 @@ package task
 //@   opt strings=uf
 //@   requires t != nil
 //@   ensures result ==> !old(locked(t))
+// ... and only tasks that were asked for: a task is selected only if its id is one of the requested ids
+//@   ensures result ==> exists j int :: 0 <= j && j < len(taskIds) && taskIds[j] == t.taskId
+//@   loop 1 invariant #i >= -1 && #i < len(taskIds)
 
 // what is handed to doKillTasks is exactly what roster.filtered returned for that filter
 //@ func (m *Manager) Cleanup() (killed Tasks, running Tasks, err error)
@@ -262,7 +269,7 @@ package task
 //@   on aftercall (*Manager).GetTask : found = (result != nil) ; notOwned = (result == nil) ; lockedSeen = false
 //@   on aftercall (*Task).IsLocked : lockedSeen = result ; notOwned = notOwned || !result
 //@   on go (*Manager).updateTaskState when arg2 == "ERROR" : errSpawned = true
-//@   on call calls.Kill : assert notOwned ; killed = true
+//@   on call calls.Kill : assert notOwned && arg0 == mesosStatus.TaskID.Value ; killed = true
 //@   ensures (mst == mesos.TASK_LOST || mst == mesos.TASK_KILLED || mst == mesos.TASK_FAILED || mst == mesos.TASK_ERROR) && found && lockedSeen ==> errSpawned
 // C18, the other direction: a reconciliation answer that reports the task alive (staging, starting, running, being
 // killed) is let through without a KILL only after the task was looked up and found locked, i.e. owned.
